@@ -28,6 +28,8 @@ Definition flat_state (w : list (addr * dk)) (s : state) : list Z :=
   [-1] ++ flat_map (flat_pos s) (positions s) ++ [-2; next_pos s] ++ flat_map flat_lock (locks s) ++ [-3; last_lock s] ++
   flat_map flat_denom (denoms s) ++ [-4] ++ map (fun x => bal_of (bals s) (fst x) (snd x)) w.
 
+(* verdict (0 accepted / 1 rejected for lack of authorisation / 2 rejected otherwise) followed, for an accepted message,
+   by the projected post-state *)
 Definition model_obs (c : case) : list Z :=
   let '(s', r) := step (c_env c) (c_state c) (c_sender c) (c_msg c) in
   match r with
@@ -36,4 +38,25 @@ Definition model_obs (c : case) : list Z :=
   | Err EOther => [2]
   end.
 
-Definition case_ok (c : case) : bool := zlist_eqb (model_obs c) (c_expect c).
+(* the correspondence: model and implementation agree on accepted / rejected, and on the projected post-state of an accepted
+   message. Which guard rejected a message (authorisation / other) is not part of it: the property only distinguishes accepted
+   from rejected, and a refactoring that reorders redundant guards keeps it. *)
+Definition case_ok (c : case) : bool :=
+  match model_obs c, c_expect c with
+  | 0 :: m, 0 :: x => zlist_eqb m x
+  | 0 :: _, _ | _, 0 :: _ => false
+  | _ :: _, _ :: _ => true
+  | _, _ => false
+  end.
+
+(* diagnostic only: the error class agrees as well *)
+Definition class_ok (c : case) : bool := zlist_eqb (model_obs c) (c_expect c).
+
+(* one evaluation of the model per case: 0 = agrees fully, 1 = disagrees (verdict or post-state), 2 = only the error class differs *)
+Definition grade (c : case) : nat := if class_ok c then 0%nat else if case_ok c then 2%nat else 1%nat.
+Fixpoint where_from (g : nat) (i : nat) (l : list nat) : list nat :=
+  match l with
+  | [] => []
+  | x :: r => if Nat.eqb x g then i :: where_from g (S i) r else where_from g (S i) r
+  end.
+Definition where_is (g : nat) (l : list nat) : list nat := where_from g 0%nat l.
